@@ -39,15 +39,15 @@ Lemma sim_call_rev A n x : CallsR n -> simvg A (S n) (vm_call G ur x) (gen_call 
 Proof.
   intros HCalls. unfold gen_call.
   destruct (has_orule G x) eqn:Ho.
-  - pose proof (vm_call_special G U x (not_fixed_rule G extras HH x Ho) Ho) as Ecall. fold ur in Ecall. rewrite Ecall.
+  - pose proof (vm_call_special G U x Ho) as Ecall. fold ur in Ecall. rewrite Ecall.
     destruct (has_orule_first G x Ho) as (r & Er & _).
     eapply cong_call; [apply vm_env_at; exact Er|apply gen_env_at; exact Er|].
     destruct A; [apply sim_weaken|]; apply (HCalls _ _ Er).
-  - unfold vm_call, prim_range, fixed_builtins, rng. cbn [bindex].
+  - unfold vm_call, prim_range, fixed_builtins, rng. rewrite Ho. cbn [bindex].
     repeat match goal with |- simvg _ _ (if str_eqb x ?b then _ else _) _ =>
       rewrite (str_eqb_sym x b); destruct (str_eqb b x);
       [eapply cong_call_right; [apply (Eg_fixed G U); reflexivity|cbn [snd]; closed]|] end.
-    rewrite Ho. pose proof (ulookup_uindex U x 0) as X. fold ur in X.
+    pose proof (ulookup_uindex U x 0) as X. fold ur in X.
     destruct (ur x) as [rs|], (uindex U x 0) as [j|]; try contradiction.
     + destruct X as (_ & y & Hy). rewrite Nat.sub_0_r in Hy.
       eapply cong_call_right; [apply (Eg_unicode G U); exact Hy|apply sim_prim].
@@ -65,7 +65,7 @@ Lemma sim_skip_rev A n : CallsR n -> simvg A (S n) vsk csk.
 Proof.
   intros HCalls. eapply cong_call_right; [apply (Eg_skip G U)|].
   unfold gen_skip, vm_skip.
-  pose proof (vm_call_special G U (nm "WHITESPACE") eq_refl) as Ew. pose proof (vm_call_special G U (nm "COMMENT") eq_refl) as Ec. fold ur in Ew, Ec.
+  pose proof (vm_call_special G U (nm "WHITESPACE")) as Ew. pose proof (vm_call_special G U (nm "COMMENT")) as Ec. fold ur in Ew, Ec.
   destruct (has_orule G (nm "WHITESPACE")) eqn:Hw, (has_orule G (nm "COMMENT")) eqn:Hc;
     rewrite ?(Ew eq_refl), ?(Ec eq_refl).
   - apply cong_ifna'; [|apply sim_prim]. apply cong_seq', cong_then'; [apply cong_rep', sim_rule_call_rev; auto|].
@@ -226,8 +226,7 @@ Lemma rule_sim_rev n : CallsR n -> CallsR (S n).
 Proof.
   intros HCalls k r Er.
   pose proof (HR G extras HH r (nth_error_In _ _ Er)) as X. unfold rule_in_H in X.
-  apply andb_prop in X. destruct X as [X X4]. apply andb_prop in X. destruct X as [X X3].
-  apply andb_prop in X. destruct X as [_ X2].
+  apply andb_prop in X. destruct X as [X X4]. apply andb_prop in X. destruct X as [X2 X3].
   assert (Tg : subexprs_ok tag_ok (oexpr_of r) = true).
   { eapply subexprs_ok_impl; [|exact X3]. intros e. destruct extras; auto. destruct e; cbn; try discriminate; auto. }
   assert (Pn : simvg false (S n) (vx (oexpr_of r)) (gx (oexpr_of r))).
